@@ -746,3 +746,65 @@ Proof.
   - req. eapply named_map_of; eauto. exact ert_shape.
   - use_keys.
 Qed.
+
+Lemma jeq_int x z : jeq x (JInt z) = true -> as_int x = Some z.
+Proof.
+  destruct x; simpl; try discriminate.
+  - intros H. apply Z.eqb_eq in H. subst. reflexivity.
+  - destruct f; try discriminate. intros H. apply Z.eqb_eq in H. subst num.
+    rewrite Z_mod_mult. simpl. rewrite Z.div_mul; [reflexivity|lia].
+Qed.
+
+Lemma static_array_weaken (P Q : json -> Prop) j :
+  (forall x, P x -> Q x) -> static_array_ft_doc false P j -> static_array_ft_doc false Q j.
+Proof. intros PQ. apply static_array_mono. intros x _. apply PQ. Qed.
+
+Theorem trace_type_features_shape x :
+  (* the `$features` value of a trace type, as the `trace-type` definition constrains it *)
+  forall m, lookup "$features" m = Some x -> VK (CF "trace-type") (JObj m) ->
+  x = JNull \/ trace_type_features_doc false x.
+Proof.
+  intros m0 Hf H. unfold VK in H. denote_in H (unf_in [CF "trace-type"]) 16. flat. inst. flat. clean.
+  repeat match goal with X : context[has_key "trace-byte-order"] |- _ => clear X end.
+  look. obj_or_null x. eexists; split; [reflexivity|]. repeat split.
+  - opt. match goal with O : V S3 (SRef _) _ |- _ =>
+      destruct (opt_or_def_feature_shape _ O) as [N|[B|F]] end; [left; exact N|right; left; exact B|].
+    right. right. split; [exact F|].
+    the_or.
+    + match goal with T : has_type_in ?y [TObj] = true |- _ => destruct (has_type_obj _ T) as [mm ->] end.
+      inst. flat. exists mm. split; [reflexivity|]. intros s Hs. look. apply jeq_int. assumption.
+    + exfalso. destruct F as [(mm & -> & _)|(mm & -> & _)]; discriminate.
+  - opt. the_or.
+    + right. right.
+      match goal with S : V S3 (SRef _) _ |- _ =>
+        pose proof (static_array_ft_shape _ S) as SA end.
+      destruct SA as (mm & -> & C & (e & He & Ve) & L & K). inst. flat. look.
+      exists mm. split; [reflexivity|]. split; [exact C|]. split; [|split; assumption].
+      exists e. split; [exact He|]. vk feature_uint_ft_shape.
+    + the_or.
+      * right. left. match goal with T : has_type_in ?y [TBool] = true |- _ => exact (has_type_bool _ T) end.
+      * the_or. left. is_null.
+  - opt. vk opt_or_def_feature_shape.
+  - use_keys.
+Qed.
+
+Theorem trace_type_shape j : VK (CF "trace-type") j -> trace_type_doc false j.
+Proof.
+  intros HV. pose proof HV as H.
+  unfold VK in H. denote_in H (unf_in [CF "trace-type"]) 16. flat.
+  to_obj j. eexists; split; [reflexivity|]. repeat split.
+  - opt. vk byte_order_shape.
+  - opt. vk byte_order_shape.
+  - (* exactly one of the two byte order properties *)
+    match goal with X : _ \/ _ |- _ => destruct X as [X|X]; flat end.
+    + right. repeat match goal with E : JObj _ = JObj _ |- _ => injection E as <- end. inst. flat.
+      split; assumption.
+    + left. repeat match goal with E : JObj _ = JObj _ |- _ => injection E as <- end.
+      match goal with X : _ \/ _ |- _ => destruct X as [X|X]; flat end. inst. flat.
+      split; assumption.
+  - opt. vk opt_tt_uuid_shape.
+  - intros x Hx. exact (trace_type_features_shape x m Hx HV).
+  - opt. eapply named_map_of; eauto; [discriminate|exact clock_type_shape].
+  - req. eapply named_map_of; eauto. exact dst_shape.
+  - use_keys.
+Qed.
